@@ -41,18 +41,42 @@ Proof.
   apply Z.leb_le. apply N. apply Z.leb_le. exact (allv_sget _ _ _ _ C G).
 Qed.
 
+Lemma bank_send_nn s f t x s0 : nn s -> bank_send s f t x = Some s0 -> nn s0.
+Proof. intros N H. apply bank_send_spec in H. destruct H as (b & B & _ & _ & -> & _). unfold nn in *. simpl. exact N. Qed.
+
 Lemma log_ev_nn e s : nn s -> nn (log_ev e s).
 Proof. unfold nn, log_ev. simpl. auto. Qed.
 
+Lemma take_nn s st a x s1 : nn s -> take_from_staker s st a x = Some s1 -> nn s1.
+Proof.
+  intros N H. apply take_spec in H. destruct H as [(_ & s0 & B & ->)|(_ & E)]; [|eapply upd_sa_nn; eauto].
+  apply log_ev_nn. eapply bank_send_nn; eauto.
+Qed.
+Lemma book_nn s st a x s1 : nn s -> book_pending s st a x = Some s1 -> nn s1.
+Proof. intros N H. apply book_spec in H. destruct H as [(_ & ->)|(_ & E)]; [exact N|eapply upd_sa_nn; eauto]. Qed.
+Lemma pay_nn s r s1 : nn s -> pay_staker s r = Some s1 -> nn s1.
+Proof.
+  intros N H. apply pay_spec in H. destruct H as [(_ & s0 & B & ->)|(_ & E)]; [|eapply upd_sa_nn; eauto].
+  apply log_ev_nn. eapply bank_send_nn; eauto.
+Qed.
+
+Lemma deposit_nn_lst s st a x s' : nn s -> deposit_lst s st a x = Some s' -> nn s'.
+Proof.
+  intros N H. unfold deposit_lst in H. dmatch H. inversion H; subst; clear H.
+  apply log_ev_nn. eapply upd_tot_nn; [|eassumption]. eapply upd_sa_nn; eassumption.
+Qed.
 Lemma deposit_nn s st a x s' : nn s -> deposit s st a x = Some s' -> nn s'.
 Proof.
-  intros N H. unfold deposit in H. dmatch H. inversion H; subst; clear H.
+  intros N H. apply deposit_shape in H. destruct H as [(_ & ->)|(_ & H)]; [exact N|]. eapply deposit_nn_lst; eauto.
+Qed.
+Lemma withdraw_nn_lst s st a x s' : nn s -> withdraw_lst s st a x = Some s' -> nn s'.
+Proof.
+  intros N H. unfold withdraw_lst in H. dmatch H. inversion H; subst; clear H.
   apply log_ev_nn. eapply upd_tot_nn; [|eassumption]. eapply upd_sa_nn; eassumption.
 Qed.
 Lemma withdraw_nn s st a x s' : nn s -> withdraw s st a x = Some s' -> nn s'.
 Proof.
-  intros N H. unfold withdraw in H. dmatch H. inversion H; subst; clear H.
-  apply log_ev_nn. eapply upd_tot_nn; [|eassumption]. eapply upd_sa_nn; eassumption.
+  intros N H. apply withdraw_shape in H. destruct H as [(_ & ->)|(_ & H)]; [exact N|]. eapply withdraw_nn_lst; eauto.
 Qed.
 
 Lemma append_staker_nn s k x : nn s -> nn (append_staker s k x).
@@ -64,14 +88,12 @@ Lemma delegate_nn s st a op x s' : nn s -> delegate s st a op x = Some s' -> nn 
 Proof.
   intros N H. unfold delegate in H.
   destruct (x <=? 0); [discriminate|]. destruct (negb (mem op (operators s))); [discriminate|].
-  destruct (sget (sa s) (sa_key st a)) as [info|]; [|discriminate].
-  destruct (sa_wd info <? x); [discriminate|].
-  destruct (upd_sa s (sa_key st a) 0 (- x) 0) as [s1|] eqn:E1; [|discriminate].
+  destruct (take_from_staker s st a x) as [s1|] eqn:E1; [|discriminate].
   match type of H with match ?e with _ => _ end = _ => destruct e as [sh|]; [|discriminate] end.
   destruct (upd_oa s1 (oa_key op a) x 0 sh 0) as [s2|] eqn:E2; [|discriminate].
   destruct (upd_dg s2 (dg_key st a op) sh 0) as [[s3 z]|] eqn:E3; [|discriminate].
   inversion H; subst; clear H. apply append_staker_nn.
-  eapply upd_dg_nn; [|eassumption]. eapply upd_oa_nn; [|eassumption]. eapply upd_sa_nn; eassumption.
+  eapply upd_dg_nn; [|eassumption]. eapply upd_oa_nn; [|eassumption]. eapply take_nn; eassumption.
 Qed.
 
 Lemma set_record_nn s r s' : nn s -> ur_nn r = true -> set_record s r = Some s' -> nn s'.
@@ -118,13 +140,13 @@ Proof.
   destruct (sget (dg s) (dg_key st a op)) as [d|] eqn:Ed; [|discriminate].
   destruct (sget (oa s) (oa_key op a)) as [o|] eqn:Eo; [|discriminate].
   destruct (shares_from_tokens (oa_tsh o) x (oa_amt o)) as [sh0|]; [|discriminate].
-  destruct (sh0 >? dg_sh d); [discriminate|].
+  match type of H with (if ?c then _ else _) = _ => destruct c; [discriminate|] end.
   destruct (shares_from_tokens (oa_tsh o) 1 (oa_amt o)) as [tol|]; [|discriminate].
-  set (sh := if dg_sh d - sh0 <? tol then dg_sh d else sh0) in *.
+  set (sh := if sh0 >? dg_sh d then dg_sh d else if dg_sh d - sh0 <? tol then dg_sh d else sh0) in *.
   destruct (sh <=? 0) eqn:Esh; [discriminate|]. destruct (sh >? oa_tsh o); [discriminate|].
   match type of H with match ?e with _ => _ end = _ => destruct e as [tok|] eqn:Et; [|discriminate] end.
   destruct (upd_oa s (oa_key op a) (- tok) tok (- sh) 0) as [s1|] eqn:E1; [|discriminate].
-  destruct (upd_sa s1 (sa_key st a) 0 0 tok) as [s2|] eqn:E2; [|discriminate].
+  destruct (book_pending s1 st a tok) as [s2|] eqn:E2; [|discriminate].
   destruct (upd_dg s2 (dg_key st a op) (- sh) tok) as [[s3 z]|] eqn:E3; [|discriminate].
   match type of H with match ?e with _ => _ end = _ => destruct e as [s4|] eqn:E4; [|discriminate] end.
   match type of H with match set_record s4 ?rr with _ => _ end = _ => set (r0 := rr) in *;
@@ -135,7 +157,7 @@ Proof.
   { apply Z.leb_gt in Esh. destruct (oa_tsh o =? sh); [inversion Et; lia|].
     eapply tokens_from_shares_nn; [| | |exact Et]; lia. }
   assert (nn s3) as N3.
-  { eapply upd_dg_nn; [|eassumption]. eapply upd_sa_nn; [|eassumption]. eapply upd_oa_nn; eassumption. }
+  { eapply upd_dg_nn; [|eassumption]. eapply book_nn; [|eassumption]. eapply upd_oa_nn; eassumption. }
   assert (nn s4) as N4 by (destruct z; [eapply delete_staker_nn; eauto | inversion E4; subst; assumption]).
   assert (nn s5) as N5 by (eapply set_record_nn; [exact N4 | unfold r0; apply ur_nn_mk; exact Ht | exact E5]).
   destruct (mem op (validators s)).
@@ -238,9 +260,9 @@ Proof.
     assert (ur_nn r' = true) as Nr' by exact Nr.
     exact (set_record_nn _ _ _ (del_record_nn s r N) Nr' E2).
   - destruct (upd_dg s _ 0 (- ur_amt r)) as [[s1 z]|] eqn:E1; [|assumption].
-    destruct (upd_sa s1 _ 0 (ur_act r) (- ur_amt r)) as [s2|] eqn:E2; [|assumption].
+    destruct (pay_staker s1 r) as [s2|] eqn:E2; [|assumption].
     destruct (upd_oa s2 _ 0 (- ur_amt r) 0 0) as [s3|] eqn:E3; [|assumption].
-    apply del_record_nn. eapply upd_oa_nn; [|eassumption]. eapply upd_sa_nn; [|eassumption]. eapply upd_dg_nn; eassumption.
+    apply del_record_nn. eapply upd_oa_nn; [|eassumption]. eapply pay_nn; [|eassumption]. eapply upd_dg_nn; eassumption.
 Qed.
 
 Lemma w_height_nn h s : nn s -> nn (w_height h s).
